@@ -135,7 +135,7 @@ def main():
         print(open(a.replay).read())
         return 0
 
-    ev_path = os.path.join(VERIF, 'evidence', pid + '.json')
+    ev_path = os.path.join(os.environ.get('VERIF_EVIDENCE_DIR') or os.path.join(VERIF, 'evidence'), pid + '.json')
     os.makedirs(os.path.dirname(ev_path), exist_ok=True)
     try:
         os.unlink(ev_path)
@@ -210,7 +210,7 @@ def main():
           % (pid, ctx.obligations, ctx.discharged, len(ctx.findings) - len(new), len(new),
              len(ctx.functions_analysed), time.time() - t0))
     if new:
-        rdir = os.path.join(VERIF, 'replays')
+        rdir = os.environ.get('VERIF_REPLAY_DIR') or os.path.join(VERIF, 'replays')
         os.makedirs(rdir, exist_ok=True)
         rp = os.path.join(rdir, '%s.json' % pid)
         with open(rp, 'w') as f:
